@@ -56,6 +56,16 @@ fn main() {
             };
             std::process::exit(engine::replay_main(check, &args[3]));
         }
+        "dump-cases" => {
+            // ov dump-cases <n> <seed> <dir>: writes n small ledgers for the sanitizer passes
+            // (cases.txt for the Miri probe, one file per ledger for memcheck)
+            if args.len() < 5 {
+                usage();
+            }
+            let n: u64 = args[2].parse().unwrap_or(8);
+            let seed: u64 = args[3].parse().unwrap_or(1);
+            std::process::exit(checks::sanitizer_cases::dump(n, seed, &args[4]));
+        }
         "worker" => {
             if args.len() < 8 {
                 usage();
